@@ -5,6 +5,7 @@ import DW.Driver.Core
 import DW.Driver.Caches
 import DW.Driver.Conc
 import DW.Driver.C17
+import DW.Driver.Names
 
 open Lean DW.Driver
 
@@ -18,6 +19,7 @@ def dispatch (j : Json) : Except String Json := do
   | "caches" => handleCaches j
   | "conc" => handleConc j
   | "c17" => handleC17 j
+  | "names" => handleNames j
   | x => throw s!"unknown op {x}"
 
 def handleLine (line : String) : String :=
